@@ -491,10 +491,17 @@ impl<'de, R: Read<'de>> Parser<R> {
             b'#' => {
                 self.eat_char();
                 match self.next_char()? {
-                    Some(b't') => Token::Bool(true),
-                    Some(b'f') => Token::Bool(false),
+                    Some(b't') => {
+                        self.expect_token_end()?;
+                        Token::Bool(true)
+                    }
+                    Some(b'f') => {
+                        self.expect_token_end()?;
+                        Token::Bool(false)
+                    }
                     Some(b'n') => {
                         self.expect_ident(b"il")?;
+                        self.expect_token_end()?;
                         Token::Nil
                     }
                     Some(b'(') => Token::VecOpen(b')'),
@@ -943,6 +950,14 @@ impl<'de, R: Read<'de>> Parser<R> {
         }
 
         Ok(())
+    }
+
+    /// `#t`, `#f` and `#nil` are whole tokens: they extend to the next delimiter.
+    fn expect_token_end(&mut self) -> Result<()> {
+        match self.peek()? {
+            Some(c) if !is_delimiter(c) => Err(self.peek_error(ErrorCode::ExpectedSomeIdent)),
+            _ => Ok(()),
+        }
     }
 
     fn parse_byte_list(&mut self, close: u8) -> Result<Vec<u8>> {
